@@ -9,7 +9,11 @@
 // instantiation must supply (HumanReadableTypeName / ObjectKey / ObjectEqual / CopyObject) are defined
 // for the test type.
 //
-// The registries are process-global, so EVERY input line is executed in a freshly forked child.
+// Fresh table per input line: for the test instantiations (kinds t, c) a new GlobalTable object is created
+// by calling the template's own (private) constructor -- the header is included under `#define private public`,
+// its text is not touched; the real registries (kinds p, v) are process-global singletons, so every line of
+// those kinds is executed in a freshly forked child (fork is slow here: such lines are long batches of
+// sub-histories with distinct name prefixes).
 //
 //   seq <kind> <op> <op> ...          one sequential history; one output token per op
 //        r:<name>:<payload>   register            -> s<ret> | E (mju_error) | W (warning, returned -1)
@@ -41,9 +45,18 @@
 #include <tuple>
 #include <vector>
 
+#include <cctype>
+#include <mutex>
+#include <new>
+#include <type_traits>
+
 #include <mujoco/mujoco.h>
 #include <mujoco/mjplugin.h>
+#include "engine/engine_util_errmem.h"
+// access to GlobalTable's private constructor (fresh tables without a process per history)
+#define private public
 #include "engine/engine_global_table.h"
+#undef private
 
 // ------------------------------------------------------------------ test object type
 static std::atomic<bool> g_yield{false};
@@ -116,12 +129,23 @@ static int dummy_open(mjResource*) { return 0; }
 static int dummy_read(mjResource*, const void**) { return -1; }
 static void dummy_close(mjResource*) {}
 
+struct Tables {   // the fresh test tables of the current line
+  mujoco::GlobalTable<TObj<0>>* t0 = nullptr;
+  mujoco::GlobalTable<TObj<1>>* t1 = nullptr;
+  explicit Tables(char kind) {
+    if (kind == 't') t0 = new mujoco::GlobalTable<TObj<0>>();
+    if (kind == 'c') t1 = new mujoco::GlobalTable<TObj<1>>();
+  }
+  ~Tables() { delete t0; delete t1; }  // (blocks after the first are never freed by the table: leaked, tiny)
+};
+static Tables* g_tables = nullptr;
+
 struct Api {
   char kind;
   explicit Api(char k) : kind(k) {}
 
   template <int Tag> static mujoco::GlobalTable<TObj<Tag>>& T() {
-    return mujoco::GlobalTable<TObj<Tag>>::GetSingleton();
+    if constexpr (Tag == 0) return *g_tables->t0; else return *g_tables->t1;
   }
 
   template <int Tag> static TObj<Tag> make(const std::string& name, int payload) {
@@ -454,16 +478,29 @@ int main() {
       std::string t;
       while (is >> t) w.push_back(t);
     }
+    auto execute = [&]() {
+      std::string out;
+      bool ok = false;
+      char kind = w.size() > 1 && w[1].size() == 1 ? w[1][0] : '?';
+      Tables tables(kind);
+      g_tables = &tables;
+      g_yield = false;
+      if (!w.empty() && w[0] == "seq") ok = run_seq(w, &out);
+      else if (!w.empty() && w[0] == "conc") ok = run_conc(w, &out);
+      g_tables = nullptr;
+      if (!ok) out = "bad-op";
+      printf("%s\n", out.c_str());
+    };
+    bool global_registry = w.size() > 1 && (w[1] == "p" || w[1] == "v");
+    if (!global_registry) {
+      execute();
+      continue;
+    }
     fflush(stdout);
     pid_t pid = fork();
     if (pid < 0) { perror("fork"); return 2; }
     if (pid == 0) {
-      std::string out;
-      bool ok = false;
-      if (!w.empty() && w[0] == "seq") ok = run_seq(w, &out);
-      else if (!w.empty() && w[0] == "conc") ok = run_conc(w, &out);
-      if (!ok) out = "bad-op";
-      printf("%s\n", out.c_str());
+      execute();
       fflush(stdout);
       _exit(0);
     }
@@ -473,5 +510,6 @@ int main() {
       printf("crash:%d\n", WIFSIGNALED(status) ? WTERMSIG(status) : -WEXITSTATUS(status));
     }
   }
+  fflush(stdout);
   return 0;
 }
